@@ -345,6 +345,37 @@ def case_generic_orders(i, cid):
     return RCase("C01", code, "generic_orders/%d" % i)
 
 
+MOD_FRAG_INITS = [("if true { 10 } else { 20 }", 10), ("match 3 { 3 => { 5 } _ => { 6 } }", 5), ("unsafe { 7 }", 7), ("{ 2 } + { 40 }", 42), ("(1 + 2) * 3", 9),
+                  ("loop { break 8 }", 8)]
+
+
+def case_mod_fragment(i, cid):
+    """C02: an entraited MODULE written by macro_rules!: non-function items whose initialiser is an `$init:expr` fragment (an invisible
+    group that may end in a brace group) and whose type is a `$t:ty` fragment, followed by functions; items and methods keep their meaning"""
+    init, want = MOD_FRAG_INITS[i % len(MOD_FRAG_INITS)]
+    code = ("pub mod k%d { use super::*;\nmacro_rules! mk { ($init:expr, $t:ty) => { #[entrait(pub Tr)] pub mod m { use super::*; pub const K: $t = $init; "
+            "pub fn g(deps: &impl A, x: i64) -> i64 { x + K } pub static S: $t = $init; pub fn h(deps: &impl A, x: i64) -> i64 { x * 2 + S } } } }\nmk!(%s, i64);\n"
+            "pub fn run() { let app = Impl::new(App { tag: 7 }); let r = (m::K, m::S, m::g(&app, 1), app.g(1), m::h(&app, 1), app.h(1)); "
+            "report(%d, \"C02\", r == (%d, %d, %d, %d, %d, %d), format!(\"{:?}\", r)); }\n}") % (
+        cid, init, cid, want, want, want + 1, want + 1, want + 2, want + 2)
+    return RCase("C02", code, "mod_fragment")
+
+
+def case_ty_fragment(i, cid):
+    """C05: the type of a concrete dependency arrives as a `$deps:ty` fragment of macro_rules! (an invisible group): the whole type
+    `&App`, or the `App` under a reference written in the macro body; sync and async"""
+    whole = i % 2 == 0
+    asy = i % 4 >= 2
+    w = "block_on(%s)" if asy else "%s"
+    param, arg = ("app: $deps", "&App") if whole else ("app: &$deps", "App")
+    code = ("pub mod k%d { use super::*;\nmacro_rules! mk { ($deps:ty) => { #[entrait(pub Tr)] pub %sfn f(%s, x: i64) -> i64 { rec(format!(\"f@{}|{}\", addr(app), x)); app.tag * 100 + x } } }\nmk!(%s);\n"
+            "pub fn run() { let a: &'static App = Box::leak(Box::new(App { tag: 3 })); let r0 = %s; let t0 = take(); let r1 = %s; let t1 = take(); let r2 = %s; let t2 = take();\n"
+            "report(%d, \"C05\", r0 == 304 && r1 == 304 && r2 == 304 && t0 == t1 && t1 == t2 && t0.len() == 1, format!(\"{} {} {} {:?} {:?} {:?}\", r0, r1, r2, t0, t1, t2)); }\n}") % (
+        cid, "async " if asy else "", param, arg, w % "f(a, 4)", w % "Tr::f(a, 4)",
+        w % ("Impl::new(a).f(4)" if whole else "a.f(4)"), cid)
+    return RCase("C05", code, "ty_fragment/%s%s" % ("whole" if whole else "under_ref", "/async" if asy else ""))
+
+
 def build_cases(seed, tier):
     rng = random.Random(seed * 211 + 3)
     k = 5 if tier == "thorough" else 1
@@ -365,6 +396,10 @@ def build_cases(seed, tier):
         cases.append(case_block_fragment(rng, len(cases)))
     for i in range(4):
         cases.append(case_generic_orders(i, len(cases)))
+    for i in range(len(MOD_FRAG_INITS)):
+        cases.append(case_mod_fragment(i, len(cases)))
+    for i in range(4):
+        cases.append(case_ty_fragment(i, len(cases)))
     for i, c in enumerate(cases):
         c.cid = i
     return cases
